@@ -257,8 +257,11 @@ def rebuild_rules(P, R):
              "IPhreeqc::ErrorLines": "IPhreeqc::ErrorString", "IPhreeqc::WarningLines": "IPhreeqc::WarningString",
              "IPhreeqc::SelectedOutputLinesMap": "IPhreeqc::SelectedOutputStringMap"}
     found = {}
-    for q in ("IPhreeqc::do_run", "IPhreeqc::update_errors"):
-        f = P.one(q)
+    for q in ("IPhreeqc::do_run", "IPhreeqc::update_errors", "IPhreeqc::update_lines"):
+        fs_ = P.fns_named(q)
+        if not fs_:
+            continue
+        f = fs_[0]
         for x in T.walk(f["body"]):
             if x[0] != "Compound":
                 continue
@@ -304,6 +307,62 @@ def rebuild_rules(P, R):
             R.violation("C09.rebuild", inst, "%s is rebuilt from %s instead of %s: the line view no longer holds the lines of the string" % (inst, what, string), file="IPhreeqc.cpp", line=bad[0][2], function=bad[0][0])
         else:
             R.ok("C09.rebuild", inst, "rebuilt from %s in %s" % (string.split("::")[-1], got[0][0]))
+    rebuild_reach_rule(P, R, found)
+    openfirst_rule(P, R)
+
+
+def openfirst_rule(P, R):
+    """every line of the error string appears in the error file: the files of a call are opened before anything in that call
+    can report - in each Run* entry point open_output_files() is the first engine-side action of the try block (only the
+    accumulated-lines bookkeeping precedes it), in particular before check_database(), which reports "No database is loaded"."""
+    R.rule("C09.openfirst", "Run* entry points open the output, error and log files before any call that can report a message", minimum=3)
+    for q in ("IPhreeqc::RunString", "IPhreeqc::RunFile", "IPhreeqc::RunAccumulated"):
+        f = P.one(q)
+        trys = [s_ for s_ in f["body"][2] if T.is_node(s_) and s_[0] == "Try"]
+        if len(trys) != 1:
+            R.anchor_missing("C09.openfirst", "%s: try block not found" % q)
+            continue
+        body = trys[0][2][2] if trys[0][2][0] == "Compound" else [trys[0][2]]
+        seq = []
+        for s_ in body:
+            if not T.is_node(s_):
+                continue
+            for c in T.calls(s_):
+                cd = c[2]
+                if isinstance(cd, dict) and cd.get("proj") and cd.get("cls") in ("IPhreeqc", "Phreeqc", "PHRQ_io"):
+                    nm = T.callee_name(c)
+                    if nm in ("ClearAccumulatedLines", "GetAccumulatedLines"):
+                        continue
+                    seq.append((nm, c[1]))
+        if seq and seq[0][0] == "open_output_files":
+            R.ok("C09.openfirst", q.split("::")[-1], "open_output_files() first (line %d)" % seq[0][1])
+        else:
+            R.violation("C09.openfirst", q.split("::")[-1], "%s() (line %d) runs before open_output_files(): a message it reports reaches the error / output string but no file"
+                        % (seq[0] if seq else ("?", 0)), file=f["file"], line=seq[0][1] if seq else f["line"], function=f["q"])
+
+
+def rebuild_reach_rule(P, R, found):
+    """the rebuild must also happen when the run stops on an error: the function that rebuilds a line view is called in the
+    tail of every Run* entry point (after the try ladder), which every path reaches - a rebuild at the end of do_run is skipped
+    by the exception that ends a failing run"""
+    R.rule("C09.rebuildreach", "the line views of output, log and selected output are rebuilt in the tail of every Run* entry point (reached after a failed run too)", minimum=9)
+    for q in ("IPhreeqc::RunString", "IPhreeqc::RunFile", "IPhreeqc::RunAccumulated"):
+        f = P.one(q)
+        st = [s_ for s_ in f["body"][2] if T.is_node(s_)]
+        ti = next((i for i, s_ in enumerate(st) if s_[0] == "Try"), None)
+        if ti is None:
+            R.anchor_missing("C09.rebuildreach", "%s: try block not found" % q)
+            continue
+        tail_calls = set(T.callee_q(c) for s_ in st[ti + 1:] for c in T.calls(s_))
+        for lines in ("IPhreeqc::OutputLines", "IPhreeqc::LogLines", "IPhreeqc::SelectedOutputLinesMap"):
+            builders = set(g[0] for g in found.get(lines, []))
+            inst = "%s:%s" % (q.split("::")[-1], lines.split("::")[-1])
+            if builders & tail_calls:
+                R.ok("C09.rebuildreach", inst, "rebuilt by %s in the tail" % sorted(builders & tail_calls)[0].split("::")[-1])
+            else:
+                R.violation("C09.rebuildreach", inst, "%s is rebuilt only in %s, which the tail of %s does not call: after a run that stops on an error the string holds text while the "
+                            "line count is 0" % (lines.split("::")[-1], ", ".join(sorted(b.split("::")[-1] for b in builders)) or "no function", q.split("::")[-1]),
+                            file=f["file"], line=f["line"], function=f["q"])
 
 
 # ------------------------------------------------------------------------------------------ sync of error views
